@@ -192,8 +192,10 @@ typename LeastSquares<RealType>::Vector LeastSquares<RealType>::estimateUsingSVD
 
   Eigen::JacobiSVD<Matrix> svd(JtJ_, Eigen::ComputeThinU | Eigen::ComputeThinV);
   inverseJtJ_ = svd.singularValues().asDiagonal();
+  // singular values are neglected relatively to the largest one (they scale with the square of the data)
+  const RealType threshold = std::numeric_limits<RealType>::epsilon() * svd.singularValues()(0);
   for (int n = 0; n < estimateSize_; n++) {
-    if (inverseJtJ_(n, n) > std::numeric_limits<RealType>::epsilon()) {
+    if (inverseJtJ_(n, n) > threshold) {
       inverseJtJ_(n, n) = 1 / inverseJtJ_(n, n);
     }
   }
